@@ -226,6 +226,8 @@ func (w *worker) runPath(it *workItem) {
 				switch r.kind {
 				case abInfeasible:
 					outcome = "infeasible"
+				case abPruned:
+					outcome = "pruned"
 				case abStop:
 					outcome = "violated"
 				case abDeadlock:
